@@ -271,3 +271,14 @@ impl<F: FixedChannelRegion> RegionHandler for FixedChannelPlan<F> {
         }
     }
 }
+
+#[cfg(lora_rs_verif)]
+impl<F: FixedChannelRegion> FixedChannelPlan<F> {
+    /// verification hook (read-only): channel mask and join-channel bookkeeping
+    #[allow(clippy::type_complexity)]
+    pub(crate) fn verif_snapshot(&self) -> ([u8; 9], (usize, usize, Option<usize>, [u8; 9], Option<u8>, u8)) {
+        let mut mask = [0u8; 9];
+        mask.copy_from_slice(self.channel_mask.as_ref());
+        (mask, self.join_channels.verif_snapshot())
+    }
+}
